@@ -232,3 +232,41 @@ Example C02_indirect_is_generated :
   end.
 Proof. vm_compute. split; reflexivity. Qed.
 Print Assumptions C02_indirect_is_generated.
+
+(* HIDDEN left recursion, for all inputs (Proofs/GrowHidden.v):   a: 'q'? a 'x' | 'b' .   The recursive reference comes after
+   an item that can match nothing, so the rule can invoke itself without consuming input; the analysis marks it and the
+   decorator grows the seed.  On any module with this method, for every number of x tokens, the result on
+   b x ... x y rest  (y not an x) is the left-nested tree -- each level with None for the unmatched optional -- and the
+   position after the last x; an input that starts with neither b nor q is refused. *)
+From Pegen Require Import Proofs.GrowHidden.
+Theorem C02_hidden_left_recursion_after_a_nullable_item :
+  forall K toks M b y xs rest fuel,
+  find_meth M "a" = Some hid_meth ->
+  toks = b :: xs ++ y :: rest -> tstr b = "b" -> Forall (fun t => tstr t = "x") xs -> tstr y <> "x" ->
+  List.length xs + 3 <= fuel ->
+  exists st', run K toks false false M hid_aeval [] [] fuel "a" init_state = (Ok (nest3 (VTok b) xs), st') /\
+              pos st' = S (List.length xs).
+Proof. intros K toks M b y xs rest fuel HM H1 H2 H3 H4 H5. exact (hid_accepts K toks M HM b y xs rest H1 H2 H3 H4 fuel H5). Qed.
+Print Assumptions C02_hidden_left_recursion_after_a_nullable_item.
+
+Theorem C02_hidden_left_recursion_refuses_other_input :
+  forall K toks M t rest fuel, find_meth M "a" = Some hid_meth -> toks = t :: rest -> tstr t <> "b" -> tstr t <> "q" -> 2 <= fuel ->
+  exists st', run K toks false false M hid_aeval [] [] fuel "a" init_state = (Ok VNone, st') /\ pos st' = 0.
+Proof. intros K toks M t rest fuel HM. exact (hid_rejects K toks M HM t rest fuel). Qed.
+Print Assumptions C02_hidden_left_recursion_refuses_other_input.
+
+Definition g_hid : grammar :=
+  {| rules := [{| rname := "start"; rtype := None; rmemo := false;
+                  rrhs := Rhs 1 [Alt [ni_axb 2 (NameLeaf "a"); ni_axb 3 (NameLeaf "NEWLINE")] None] |};
+               {| rname := "a"; rtype := None; rmemo := false;
+                  rrhs := Rhs 4 [Alt [ni_axb 5 (Opt (StringLeaf "'q'")); ni_axb 6 (NameLeaf "a"); ni_axb 7 (StringLeaf "'x'")] None;
+                                 Alt [ni_axb 8 (StringLeaf "'b'")] None] |}];
+     metas := [] |}.
+Example C02_hidden_is_generated :
+  match generate [] [] "" "" "g" 100 g_hid {| a_nullable := []; a_item_nullable := [5%N]; a_graph := [("start", ["a"]); ("a", ["a"])];
+                                               a_left_rec := ["a"]; a_leaders := ["a"] |} with
+  | inl M => find_meth M "a" = Some hid_meth
+  | inr _ => False
+  end.
+Proof. vm_compute. reflexivity. Qed.
+Print Assumptions C02_hidden_is_generated.
